@@ -48,12 +48,14 @@ def random_config(rng, kinds=KINDS, coarse=False):
     prog = None
     if kind.endswith('noniso') and rng.random() < 0.4:
         t = rng.choice(['polynomial', 'exponential', 'logarithmic'])
+        # the programme need not start at the stated initial temperature (step 0 uses the stated one)
+        Ts = T0 if rng.random() < 0.5 else T0 + rng.uniform(-15, 15)
         if t == 'polynomial':
-            prog = TemperatureProgram(coefficients=[T0, rng.uniform(-3, 3), rng.uniform(-0.2, 0.2)], type=t)
+            prog = TemperatureProgram(coefficients=[Ts, rng.uniform(-3, 3), rng.uniform(-0.2, 0.2)], type=t)
         elif t == 'exponential':
-            prog = TemperatureProgram(coefficients=[T0, rng.uniform(-0.01, 0.01)], type=t)
+            prog = TemperatureProgram(coefficients=[Ts, rng.uniform(-0.01, 0.01)], type=t)
         else:
-            prog = TemperatureProgram(coefficients=[T0 / math.log(50.0), 50.0, rng.uniform(0, 2.0)], type=t)
+            prog = TemperatureProgram(coefficients=[Ts / math.log(50.0), 50.0, rng.uniform(0, 2.0)], type=t)
     x0 = rng.uniform(0.05, 0.95)
     basis = rng.choice(['weight', 'weight', 'molar'])
     A = gens.loguniform(rng, 1e-3, 5.0)
